@@ -78,8 +78,12 @@ impl<T: AtomicInt> ConcurrentUnionFind<T> {
             T::as_usize(max_elt) + 1,
             |buf| {
                 let mut l = Self::find_impl(buf, l);
+                #[cfg(egglog_verif)]
+                egglog_concurrency::verif_hooks::perturb(44);
                 let mut r = Self::find_impl(buf, r);
                 while l != r {
+                    #[cfg(egglog_verif)]
+                    egglog_concurrency::verif_hooks::perturb(42);
                     let next = buf[T::as_usize(l)].load();
                     if next == l {
                         return false;
@@ -111,6 +115,8 @@ impl<T: AtomicInt> ConcurrentUnionFind<T> {
                 let mut r = r;
                 loop {
                     l = Self::find_impl(buf, l);
+                    #[cfg(egglog_verif)]
+                    egglog_concurrency::verif_hooks::perturb(40);
                     r = Self::find_impl(buf, r);
                     if l != r {
                         // We do "union by min": common in egraphs due to the
@@ -120,6 +126,8 @@ impl<T: AtomicInt> ConcurrentUnionFind<T> {
                         // work for rebuilding.
                         let parent = cmp::min(l, r);
                         let child = cmp::max(l, r);
+                        #[cfg(egglog_verif)]
+                        egglog_concurrency::verif_hooks::perturb(41);
                         match buf[T::as_usize(child)].cas(child, parent) {
                             Ok(_) => return (parent, child),
                             Err(_) => continue,
@@ -143,6 +151,8 @@ impl<T: AtomicInt> ConcurrentUnionFind<T> {
         let mut next = load!(cur);
         let mut grand = load!(next);
         while next != grand {
+            #[cfg(egglog_verif)]
+            egglog_concurrency::verif_hooks::perturb(43);
             let _ = buf[T::as_usize(cur)].cas(next, grand);
             // This is what the paper calls "two-try" splitting.
             // next = load!(cur);
